@@ -142,7 +142,7 @@ def main():
         entries = ['VerifHarness_C08_Insertion', 'VerifHarness_C08_Deletion']
         prog, secs = driver.load('prover', 'prover', HARNESS, entries)
         run.log('SSA of %d functions built from the current tree in %.1fs' % (len(prog['funcs']), secs))
-        stubs.PARAMS['maxbatch'] = 3 if run.thorough else 1
+        stubs.PARAMS['maxbatch'] = 3 if run.thorough else 2
         sm = stubs.make_stubs()
         for e in entries:
             res, ex = driver.run_entry(run, prog, e, sm, loop_bound=8)
